@@ -545,7 +545,7 @@ class StyleProperties:
 
     @staticmethod
     def validate(value: typing.Tuple[typing.Union[str, GenericFontFamilyType]]):
-      return isinstance(value, tuple) and all(lambda i: isinstance(i, (str, GenericFontFamilyType)) for i in value)
+      return isinstance(value, tuple) and all(isinstance(i, (str, GenericFontFamilyType)) for i in value)
 
 
   class FontSize(StyleProperty):
